@@ -138,11 +138,15 @@ func (v *DataModelView) DrawRelation(
 			if typeRef.GetRef().GetAppname().GetPart() != nil {
 				targetApp = syslutil.JoinAppName(typeRef.GetRef().GetAppname())
 			}
-			targetEntity := v.UniqueVarForAppName(targetApp, typeRef.GetRef().Path[0])
 			s = fmt.Sprintf("+ %s : **%s.%s** <<FK>>\n",
 				attrName,
 				typeRef.GetRef().Path[0],
 				typeRef.GetRef().Path[1])
+			if viewParam.Types[targetApp+"."+typeRef.GetRef().Path[0]] == nil {
+				v.StringBuilder.WriteString(s)
+				continue
+			}
+			targetEntity := v.UniqueVarForAppName(targetApp, typeRef.GetRef().Path[0])
 			if _, exists := relationshipMap[encEntity]; !exists {
 				relationshipMap[encEntity] = map[string]RelationshipParam{}
 			}
